@@ -646,7 +646,21 @@ fn fragments(o: &mut Out, seed: u64) {
             let paz = l0 * (a[0] * z[0]) as f64 + l1 * (a[1] * z[1]) as f64 + l2 * (a[2] * z[2]) as f64;
             let want = paz / pz;
             let (lo, hi) = (a.iter().cloned().fold(f32::MAX, f32::min) as f64, a.iter().cloned().fold(f32::MIN, f32::max) as f64);
-            let tol = (0.005 + extra) * (hi - lo) + 2e-4;
+            // width of the triangle along this row: the fragment's position across the triangle is only known to
+            // pos_err / width (towards a sliver's apex the width goes to zero)
+            let mut xs: Vec<f64> = vec![];
+            for k in 0..3 {
+                let (p, q) = (t[k], t[(k + 1) % 3]);
+                if (p[1] - c[1]) * (q[1] - c[1]) <= 0.0 && p[1] != q[1] {
+                    xs.push(p[0] + (q[0] - p[0]) * (c[1] - p[1]) / (q[1] - p[1]));
+                }
+            }
+            let w_loc = xs.iter().cloned().fold(f64::MIN, f64::max) - xs.iter().cloned().fold(f64::MAX, f64::min);
+            let extra_loc = if w_loc > 0.0 { 4.0 * (5e-7 * maxc.max(1.0)) * (zmax / zmin) / w_loc } else { f64::INFINITY };
+            if extra_loc > 0.5 {
+                continue;
+            }
+            let tol = (0.005 + extra.max(extra_loc)) * (hi - lo) + 2e-4;
             let bits = [v[0][0].to_bits(), v[0][1].to_bits(), v[1][0].to_bits(), v[1][1].to_bits(), v[2][0].to_bits(), v[2][1].to_bits()];
             if !pos.iter().all(|p| p.is_finite()) || !var.is_finite() {
                 o.fail("fragment-not-finite", "tri_fill", &bits, format!("{CFG}: fragment ({x},{y}) of triangle {v:?} is not finite"));
@@ -656,6 +670,9 @@ fn fragments(o: &mut Out, seed: u64) {
                 o.fail("fragment-attribute", "tri_fill", &bits, format!("{CFG}: pixel ({x},{y}) of triangle {v:?} carries attribute {var}, the plane gives {want:.6} (tolerance {tol:.2e})"));
             }
             o.max("fragment-attribute-error/tolerance", (var as f64 - want).abs() / tol, 1.0, "of-tolerance");
+            if std::env::var("FPPROBE_DEBUG").is_ok() && (var as f64 - want).abs() / tol > 0.4 {
+                eprintln!("DBG ratio {:.3} err {:.3e} tol {:.3e} extra {:.3e} alt {:.3e} range {:.3} v {:?} z {:?} a {:?} px ({x},{y})", (var as f64 - want).abs() / tol, (var as f64 - want).abs(), tol, extra, alt, hi - lo, v, z, a);
+            }
         }
     }
     o.count("fragments:checked", checked);
